@@ -292,6 +292,10 @@ P_C06_StreamStatesAreRfcStates ==
 P_C07_EventsFitRole ==
   (Clean /\ IsRecv) => \A i \in 1..Len(last.p.e) :
      LET t == last.p.e[i].t IN IF last.x = "s" THEN t \notin {"Resp", "Info", "Push"} ELSE t # "Req"
+\* C07: the events reported per stream read headers, data, optional trailers, at most one StreamEnded, at most one StreamReset;
+\* related-event fields point to later events of the same list; trailers carry stream_ended
+P_C07_EventGrammar ==
+  (HasSrc /\ Clean /\ IsRecv) => EgOK(Pre.eg, last.p.e, 1, last.x)
 \* C08: role restrictions on what a deviation-free endpoint emits
 P_C08_RoleRestrictedSends ==
   (Clean /\ IsCall) => \A i \in 1..Len(OutF) :
@@ -382,6 +386,25 @@ P_C18_OneGoAwayWithCode ==
      /\ OutF[Len(OutF)].t = "GOAWAY" /\ OutF[Len(OutF)].code = last.p.r.e /\ OutF[Len(OutF)].last = Post.hiIn
      /\ last.p.e = <<>>
      /\ Post.conn = "CLOSED"
+\* C18: a frame whose length contradicts its type (RFC 7540 4.2 and section 6 per frame type) is a FRAME_SIZE_ERROR
+SizeViolation(f, lim) ==
+  LET padded == Bit(f, 8)
+      l1 == IF padded THEN f.len - 1 ELSE f.len
+  IN \/ f.len > lim
+     \/ f.typ = 2 /\ f.len # 5
+     \/ f.typ = 3 /\ f.len # 4
+     \/ f.typ = 4 /\ ((Bit(f, 1) /\ f.len > 0) \/ f.len % 6 # 0)
+     \/ f.typ = 6 /\ f.len # 8
+     \/ f.typ = 7 /\ f.len < 8
+     \/ f.typ = 8 /\ f.len # 4
+     \/ f.typ \in {0, 1, 5} /\ padded /\ f.len = 0
+     \/ f.typ = 1 /\ Bit(f, 32) /\ l1 < 5
+     \/ f.typ = 5 /\ l1 < 4
+SidViolation(f) == (f.typ \in {0, 1, 2, 3, 5, 9} /\ f.sid = 0) \/ (f.typ \in {4, 6, 7} /\ f.sid # 0)
+P_C18_SizeViolationsAreFrameSizeErrors ==
+  (OneFrame("RAW") /\ ~Pre.needPre /\ Pre.pend = <<>> /\ Pre.hb = <<>> /\ ~SidViolation(last.fs[1])
+     /\ SizeViolation(last.fs[1], Pre.mif) /\ ~Excused({"settings_ack_length_code"})) =>
+     last.p.r.e = 6 /\ last.p.r.c \in {"FrameTooLargeError", "FrameDataMissingError"}
 \* C19: a closed connection emits nothing but GOAWAY, and calls that would emit raise
 P_C19_ClosedStaysQuiet ==
   (HasSrc /\ Pre.conn = "CLOSED" /\ Pre.out = <<>> /\ ~Excused({"ack_data_when_closed", "rst_on_closed_connection"})) =>
